@@ -88,6 +88,11 @@ def gen_cases(tier, seed):
     cases = ["freezero"]
     for _ in range(1500 if q else 60000):
         cases.append(gen_line(rng))
+    # a generator object whose tagged parameters reach exactly 65536 bytes (beacon: empty SSID + DS = 5 bytes, 254 elements of
+    # 257 bytes, one of 253), then one more add, a set and the release
+    big = ["A:221:%s" % hx([rng.randrange(256) for _ in range(255)]) for _ in range(254)] + ["A:221:%s" % hx([rng.randrange(256) for _ in range(251)])]
+    cases.append("allocgen -1 -1 0 - 6 00 %s A:1:02 C:3 K:221" % " ".join(big))
+    cases.append("allocgen -1 -1 1 - 6 00 %s A:1:0204 A:9:01" % " ".join(big))
     for _ in range(300 if q else 8000):
         cases.append(act_line(rng))
     for rt, buf in parse_frames(rng, 1500 if q else 60000):
